@@ -347,6 +347,17 @@ func lookup(instr *ssa.Lookup, x, idx value) value {
 // numeric datatypes and strings.  Both operands must have identical
 // dynamic type.
 func binop(op token.Token, t types.Type, x, y value) value {
+	if _, ok := x.(runeStr); ok || isRuneStr(y) {
+		switch op {
+		case token.ADD:
+			return runeStrConcat(x, y)
+		case token.EQL:
+			return simplifyBool(runeStrEq(x, y))
+		case token.NEQ:
+			return simplifyBool(symNot(runeStrEq(x, y)))
+		}
+		panic(unsupported("operator " + op.String() + " on a rune string"))
+	}
 	if isSym(x) || isSym(y) {
 		return symBinop(op, t, x, y)
 	}
@@ -1063,6 +1074,9 @@ func callBuiltin(caller *frame, callpos token.Pos, fn *ssa.Builtin, args []value
 				return sym{sBV, 64, "(blen " + x.t + ")"}
 			}
 			panic(unsupported("len of symbolic non-string"))
+		case runeStr:
+			// length in runes: the code under test only compares it with 0 (stated bound)
+			return len(x)
 		case *docMap:
 			return x.length()
 		case *symMap:
@@ -1215,7 +1229,22 @@ func widen(x value) value {
 // the result.
 // Possible cases are described with the ssa.Convert operator.
 func conv(t_dst, t_src types.Type, x value) value {
+	if rs, ok := x.(runeStr); ok {
+		// string -> []rune / string
+		if _, isSlice := t_dst.Underlying().(*types.Slice); isSlice {
+			return append([]value{}, rs...)
+		}
+		return rs
+	}
+	if xs, ok := x.([]value); ok && runeStrHasSym(xs) {
+		if b, isBasic := t_dst.Underlying().(*types.Basic); isBasic && b.Info()&types.IsString != 0 {
+			return normRuneStr(append(runeStr{}, xs...)) // []rune -> string
+		}
+	}
 	if sx, ok := x.(sym); ok {
+		if b, isBasic := t_dst.Underlying().(*types.Basic); isBasic && b.Info()&types.IsString != 0 && sx.k == sBV && sx.w == 32 {
+			return runeStr{sx} // string(r)
+		}
 		return symConv(t_dst, t_src, sx)
 	}
 	ut_src := t_src.Underlying()
